@@ -462,6 +462,42 @@ func (H) Execute(x *common.Exec, s any) {
 		return sb.String()
 	}
 	x.NonTrivial = len(evs) > 2
+	// ---- faults that fired (evidence): where Close / cancel landed, how streams ended
+	if closeInv != 0 {
+		phase := "before-first-attempt"
+		for _, e := range evs {
+			if e.stamp > closeInv {
+				break
+			}
+			switch e.kind {
+			case "newimpl":
+				phase = "during-connect"
+			case "subscribe", "connected", "noti", "recv-msg":
+				phase = "while-streaming"
+			case "disconnect":
+				phase = "during-backoff"
+			case "reset":
+				phase = "before-reconnect-attempt"
+			}
+		}
+		x.Fault(sc.Action + ":" + phase)
+	}
+	for _, e := range evs {
+		if e.kind == "subscribe" && e.typ >= 0 && e.typ < len(sc.Types) {
+			a := sc.Types[e.typ][e.att%len(sc.Types[e.typ])]
+			if a.SubErr {
+				x.Fault("stream-open-fails")
+			} else {
+				x.Fault("stream-script-ends:" + a.Items[len(a.Items)-1].K)
+			}
+			if a.ConnectNs > 0 {
+				x.Fault("slow-connect")
+			}
+		}
+	}
+	if sc.IgnoreCtx {
+		x.Fault("transport-ignores-context")
+	}
 	hh := fnv.New64a()
 	for _, e := range evs {
 		fmt.Fprint(hh, e.kind, e.typ, e.att)
